@@ -7,6 +7,7 @@ from __future__ import annotations
 
 import asyncio
 import logging
+import math
 import socket
 import warnings
 
@@ -94,7 +95,12 @@ class _VSelector:
             if not loop._scheduled:
                 loop.stop()
                 return []
-            loop._vnow = max(now, loop._scheduled[0]._when)
+            w = max(now, loop._scheduled[0]._when)
+            if w + RES == w:
+                # beyond 2**24 s a double cannot represent now + resolution; a real clock
+                # would have moved on by the time the loop looks again
+                w = math.nextafter(w, math.inf)
+            loop._vnow = w
         return []
 
     def close(self):
